@@ -115,7 +115,7 @@ func runC09(c *Ctx) {
 			if strings.HasPrefix(d, "(time.Time).Weekday(time.Date(") {
 				weekdayV = v
 				if cl, ok := v.(*ssa.Call); ok {
-					r.Check("C09.incr-range", "counterSpan/weekday is begin's", m.Pos(cl.Pos()), len(dates) > 0 && argsOf(cl)[0] == ssa.Value(dates[0]) || describe(argsOf(cl)[0]) == describe(dates[0]), "incr must be computed from begin.Weekday()")
+					r.Check("C09.incr-range", "counterSpan/weekday is begin's", m.Pos(cl.Pos()), len(dates) > 0 && argsOf(cl)[0] == ssa.Value(dates[0]) || describeArg(cl, 0) == describe(dates[0]), "incr must be computed from begin.Weekday()")
 				}
 			}
 		}
@@ -217,7 +217,7 @@ func runC09(c *Ctx) {
 	// ---- name and header carry begin/end -----------------------------------------
 	for _, cs := range callsIn(rot, "fmt.Sprintf") {
 		f, _ := constOf(argsOf(cs)[0])
-		d := describe(argsOf(cs)[1])
+		d := describeArg(cs, 1)
 		switch {
 		case strings.HasSuffix(f, ".%s.count"):
 			r.Check("C09.name-carries-begin", "rotate1/file name ends with begin date and version", m.Pos(cs.Pos()),
@@ -251,7 +251,7 @@ func runC09(c *Ctx) {
 	for _, cs := range callsIn(cds, "time.Parse") {
 		nParse++
 		lay, _ := constOf(argsOf(cs)[0])
-		src := describe(argsOf(cs)[1])
+		src := describeArg(cs, 1)
 		okKey := strings.HasSuffix(src, `.Meta["TimeBegin"]#0`) || strings.HasSuffix(src, `.Meta["TimeEnd"]#0`)
 		r.Check("C09.name-carries-begin", fmt.Sprintf("counterDateSpan/parse #%d uses the writer's layout and key", nParse), m.Pos(cs.Pos()), lay == "2006-01-02T15:04:05Z07:00" && okKey, "layout "+lay+" source "+src)
 	}
@@ -284,8 +284,8 @@ func runC09(c *Ctx) {
 	rotate := m.Func("internal/counter", "file.rotate")
 	okTimer := false
 	for _, cs := range callsIn(rotate, "time.AfterFunc") {
-		d := describe(argsOf(cs)[0])
-		f := describe(argsOf(cs)[1])
+		d := describeArg(cs, 0)
+		f := describeArg(cs, 1)
 		okTimer = strings.Contains(d, "phi:") || strings.Contains(d, "time.Until(")
 		okTimer = okTimer && strings.Contains(f, "rotate")
 		fbT := newFormulaBuilder()
